@@ -189,6 +189,10 @@ def load_split_table(split_file):
     # (no comment lines, nothing stripped: a read id may start with '#', a group may be empty, begin / end with blanks
     # or contain tabs; the read id is everything before the first tab)
     read_map = {}
+    if not os.path.exists(split_file):
+        # split_read_group_table writes one file per sequence named in the header of a BAM file; a sequence of the
+        # reference genome that no BAM file lists has no alignments and hence no table
+        return read_map
     with open(split_file, 'r', newline='\n') as handle:
         for line in handle:
             if line.endswith('\n'):
